@@ -2,7 +2,7 @@ CONSTANTS
   Collisions = {"none", "not3", "xy3"}
   Spellings = {"merged", "split", "apart"}
   Idents = {"UserId", "A", "Foo", "FooBar", "HTTPServer", "URL", "Init", "Default", "None"}
-  Renames = {"none", "x", "foo-bar", "init", "$ref"}
+  Renames = {"empty", "none", "x", "foo-bar", "init", "$ref"}
   Kinds = {"unit", "newtype", "struct"}
   RuleSet = {"none", "lowercase", "UPPERCASE", "PascalCase", "camelCase", "snake_case", "SCREAMING_SNAKE_CASE", "kebab-case", "SCREAMING-KEBAB-CASE"}
   TagPairs = {"type_content", "kind_data"}
